@@ -36,69 +36,105 @@ package s2
 //@   assumed "shared-vertex rule, a deterministic function of the four points (its case analysis is decided separately)"
 //@   pure
 
-// ---- specification
+//@ func (p Point) PointCross(op Point) Point
+//@   assumed "numerically robust cross product: a deterministic function of its two arguments (floating point, value not decided)"
+//@   pure
 
-// the cached orientation of triangle ACB is unknown or right
-//@ spec func vcCrosserInv(e *EdgeCrosser) bool = e != nil && (e.acb == 0 || e.acb == -RobustSign(e.a, e.b, e.c))
+// ---- specification: the stateless crossing functions of four points
 
-// the tangent early exit, exactly as computed from the crosser's precomputed tangents
-//@ spec func vcTangentOut(e *EdgeCrosser, c, d Point) bool =
-//@    (c.Dot(e.aTangent.Vector) > (1.5+1/math.Sqrt(3))*dblEpsilon && d.Dot(e.aTangent.Vector) > (1.5+1/math.Sqrt(3))*dblEpsilon) ||
-//@    (c.Dot(e.bTangent.Vector) > (1.5+1/math.Sqrt(3))*dblEpsilon && d.Dot(e.bTangent.Vector) > (1.5+1/math.Sqrt(3))*dblEpsilon)
+// the outward tangents at A and B that the crosser precomputes
+//@ spec func vcTanA(a, b Point) Point = Point{a.Cross(a.PointCross(b).Vector)}
+//@ spec func vcTanB(a, b Point) Point = Point{a.PointCross(b).Cross(b.Vector)}
 
-// the stateless answer for edge AB (the crosser's) against edge CD
-//@ spec func vcStateless(e *EdgeCrosser, c, d Point) Crossing = vcIf(vcSameSide(e, c, d), DoNotCross,
-//@    vcIf(vcTangentOut(e, c, d), DoNotCross,
-//@    vcIf(e.a == c || e.a == d || e.b == c || e.b == d, MaybeCross,
-//@    vcIf(e.a == e.b || c == d, DoNotCross,
-//@    vcIf(-RobustSign(e.a, e.b, c) == RobustSign(e.a, e.b, d) && RobustSign(e.a, e.b, d) == -RobustSign(c, d, e.b) && RobustSign(e.a, e.b, d) == RobustSign(c, d, e.a), Cross, DoNotCross)))))
+// the tangent early exit, exactly as computed
+//@ spec func vcTangentOut(a, b, c, d Point) bool =
+//@    (c.Dot(vcTanA(a, b).Vector) > (1.5+1/math.Sqrt(3))*dblEpsilon && d.Dot(vcTanA(a, b).Vector) > (1.5+1/math.Sqrt(3))*dblEpsilon) ||
+//@    (c.Dot(vcTanB(a, b).Vector) > (1.5+1/math.Sqrt(3))*dblEpsilon && d.Dot(vcTanB(a, b).Vector) > (1.5+1/math.Sqrt(3))*dblEpsilon)
+
 // C and D strictly on the same side of AB: no crossing whatever the other tests say (they agree: see lemma)
-//@ spec func vcSameSide(e *EdgeCrosser, c, d Point) bool = RobustSign(e.a, e.b, c) == RobustSign(e.a, e.b, d) && RobustSign(e.a, e.b, d) != 0
+//@ spec func vcSameSide(a, b, c, d Point) bool = RobustSign(a, b, c) == RobustSign(a, b, d) && RobustSign(a, b, d) != 0
+
+// the stateless answer for edge AB against edge CD
+//@ spec func vcCross4(a, b, c, d Point) Crossing = vcIf(vcSameSide(a, b, c, d), DoNotCross,
+//@    vcIf(vcTangentOut(a, b, c, d), DoNotCross,
+//@    vcIf(a == c || a == d || b == c || b == d, MaybeCross,
+//@    vcIf(a == b || c == d, DoNotCross,
+//@    vcIf(vcCriterion(a, b, c, d), Cross, DoNotCross)))))
+
+// crossing-or-vertex-crossing: the predicate whose parity decides containment
+//@ spec func vcEOV(a, b, c, d Point) bool = vcCross4(a, b, c, d) == Cross || (vcCross4(a, b, c, d) == MaybeCross && VertexCrossing(a, b, c, d))
+
+// the crosser's fixed part is the one built for (a, b), and its cached orientation of triangle ACB is unknown or right
+//@ spec func vcCrosserInv(e *EdgeCrosser) bool = e != nil && vcSame(e.aTangent, vcTanA(e.a, e.b)) && vcSame(e.bTangent, vcTanB(e.a, e.b)) &&
+//@    (e.acb == 0 || e.acb == -RobustSign(e.a, e.b, e.c))
 
 // when C and D are strictly on the same side, the four-orientation criterion says DoNotCross as well
-//@ lemma sameSideIsDoNotCross(e *EdgeCrosser, c Point, d Point)
+//@ lemma sameSideIsDoNotCross(a Point, b Point, c Point, d Point)
 //@   fpcmp
-//@   requires e != nil && vcSameSide(e, c, d) && !vcTangentOut(e, c, d)
-//@   ensures [no-shared-vertex] !(e.a == c || e.a == d || e.b == c || e.b == d)
-//@   ensures [criterion] !(-RobustSign(e.a, e.b, c) == RobustSign(e.a, e.b, d))
+//@   requires vcSameSide(a, b, c, d)
+//@   ensures [no-shared-vertex] !(a == c || a == d || b == c || b == d)
+//@   ensures [criterion] !vcCriterion(a, b, c, d)
+
+//@ func NewEdgeCrosser(a, b Point) *EdgeCrosser
+//@   fpcmp
+//@   ensures [inv] vcCrosserInv(result) && vcSame(result.a, a) && vcSame(result.b, b) && result.acb == 0
+//@   ensures [fresh] vcFresh(result)
 
 //@ func (e *EdgeCrosser) RestartAt(c Point)
 //@   fpcmp
 //@   requires e != nil
 //@   modifies e.c, e.acb
-//@   ensures [inv] vcCrosserInv(e) && vcSame(e.c, c)
+//@   ensures [inv] (old(vcCrosserInv(e)) ==> vcCrosserInv(e)) && vcSame(e.c, c)
+//@   ensures [cache] e.acb == 0 || e.acb == -RobustSign(e.a, e.b, c)
 
 //@ func (e *EdgeCrosser) ChainCrossingSign(d Point) Crossing
 //@   fpcmp
 //@   requires vcCrosserInv(e)
 //@   modifies e.c, e.acb
-//@   ensures [stateless] result == vcStateless(e, old(e.c), d)
+//@   ensures [stateless] result == vcCross4(e.a, e.b, old(e.c), d)
 //@   ensures [inv] vcCrosserInv(e) && vcSame(e.c, d)
 
 //@ func (e *EdgeCrosser) crossingSign(d Point, bda Direction) Crossing
 //@   fpcmp
 //@   requires vcCrosserInv(e) && (bda == 0 || bda == RobustSign(e.a, e.b, d)) && !(e.acb == -bda && bda != 0)
 //@   modifies e.c, e.acb
-//@   ensures [stateless] result == vcStateless(e, old(e.c), d)
+//@   ensures [stateless] result == vcCross4(e.a, e.b, old(e.c), d)
 //@   ensures [inv] vcCrosserInv(e) && vcSame(e.c, d)
 
 //@ func (e *EdgeCrosser) CrossingSign(c, d Point) Crossing
 //@   fpcmp
 //@   requires vcCrosserInv(e)
 //@   modifies e.c, e.acb
-//@   ensures [history-independent] (c != old(e.c) ==> result == vcStateless(e, c, d)) && (c == old(e.c) ==> result == vcStateless(e, old(e.c), d))
+//@   ensures [history-independent] (c != old(e.c) ==> result == vcCross4(e.a, e.b, c, d)) && (c == old(e.c) ==> result == vcCross4(e.a, e.b, old(e.c), d))
 //@   ensures [inv] vcCrosserInv(e) && vcSame(e.c, d)
 
 //@ func (e *EdgeCrosser) EdgeOrVertexChainCrossing(d Point) bool
 //@   fpcmp
 //@   requires vcCrosserInv(e)
 //@   modifies e.c, e.acb
-//@   ensures [stateless] result == (vcStateless(e, old(e.c), d) == Cross || (vcStateless(e, old(e.c), d) == MaybeCross && VertexCrossing(e.a, e.b, old(e.c), d)))
+//@   ensures [stateless] result == vcEOV(e.a, e.b, old(e.c), d)
+//@   ensures [inv] vcCrosserInv(e) && vcSame(e.c, d)
+
+//@ func (e *EdgeCrosser) EdgeOrVertexCrossing(c, d Point) bool
+//@   fpcmp
+//@   requires vcCrosserInv(e)
+//@   modifies e.c, e.acb
+//@   ensures [history-independent] (c != old(e.c) ==> result == vcEOV(e.a, e.b, c, d)) && (c == old(e.c) ==> result == vcEOV(e.a, e.b, old(e.c), d))
 //@   ensures [inv] vcCrosserInv(e) && vcSame(e.c, d)
 
 //@ func NewChainEdgeCrosser(a, b, c Point) *EdgeCrosser
 //@   fpcmp
 //@   ensures [inv] vcCrosserInv(result) && vcSame(result.a, a) && vcSame(result.b, b) && vcSame(result.c, c)
+//@   ensures [fresh] vcFresh(result)
+
+// the package-level functions are the stateless specification itself
+//@ func CrossingSign(a, b, c, d Point) Crossing
+//@   fpcmp
+//@   ensures [stateless] result == vcCross4(a, b, c, d)
+
+//@ func EdgeOrVertexCrossing(a, b, c, d Point) bool
+//@   fpcmp
+//@   ensures [stateless] result == vcEOV(a, b, c, d)
 
 // the four-orientation criterion, as a function of the four points
 //@ spec func vcCriterion(a, b, c, d Point) bool = -RobustSign(a, b, c) == RobustSign(a, b, d) && RobustSign(a, b, d) == -RobustSign(c, d, b) && RobustSign(a, b, d) == RobustSign(c, d, a)
